@@ -5,9 +5,21 @@
    The integrators are modelled generically over the integrand's evaluation
    function  f : T -> res T  (Model/Quad.v); [s_eval_univariate p] and
    [i_eval_univariate p] of Model/Poly.v are the two instances that exist in
-   the crate.  Exactness statements are about the R instance (exact arithmetic;
-   rounding is measured by the correspondence check); the no-panic statements
-   hold for every instance of Num, the float instance in particular.
+   the crate.  Exactness statements are about the R instance (exact arithmetic);
+   the no-panic statements hold for every instance of Num, the float instance in
+   particular.
+   ROUNDING.  Now a theorem (last block, Proofs/QuadFloat.v): the binary64
+   ACCUMULATION of the trapezoid rule, of the 1/3 rule and of definite_integral
+   with an even segment count, and of one 3/8 panel — given the values the integrand returned at the
+   nodes the loop visited, the returned float is within ((1+eps)^k - 1) * |h| *
+   (weighted sum of |values|) / c of the exact weighted sum (k = m + 2 for m
+   trapezoid segments, k = p + 3 for p Simpson panels, k = 7 for the 3/8 panel), under computable
+   no-overflow / no-underflow hypotheses.  Still NOT a theorem (measured by the
+   correspondence check only): the placement of the nodes (x_i accumulated as
+   x_(i-1) + h versus a + i*h), the integrand's own rounding (for polynomials see
+   C01's evaluation bound), the assembly of the odd dispatch (3/8 panel + 1/3
+   rule + one addition; the two pieces are theorems) and the Romberg extrapolation
+   table.
    "f is a cubic" is stated extensionally (forall x, f x = Ok (a0 + a1 x + a2 x^2
    + a3 x^3)), which covers every real cubic and both polynomial types
    ([c05_simpson_exact_simple], [c05_exact_inter]).  RInt is Coquelicot's
@@ -283,3 +295,294 @@ Example c05_float_runs :
   romberg (s_eval_univariate p) 0%float 1%float 2 0%float = Err EMaxIterationsReached /\
   is_ok (definite_integral (s_eval_univariate p) 0%float 1%float 7) = true.
 Proof. vm_compute. repeat split. Qed.
+
+(* ---- rounding of the accumulation, binary64 instance (Proofs/QuadFloat.v).  The integrand f is
+   arbitrary; the bounds compare the returned float with the exact weighted sum of the values f
+   returned at the nodes the loop visited.  eps = 2^-53.  Not covered: node placement (x_i versus
+   a + i*h) and the integrand's own rounding (polynomials: C01 [c01_eval_simple_float_error]). ---- *)
+From Flocq Require Import Core BinarySingleNaN PrimFloat.
+From SV Require Import Model.Stats Proofs.Stats Proofs.StatsFloat Proofs.PolyFloat Proofs.SubstFloat Proofs.QuadFloat.
+
+(* generic (every instance of Num): a returned value comes with the samples the loop took —
+   x_0 = a, x_(i+1) = x_i + h computed in T ([tnode]), the last value at `end_` — and is the closed form *)
+Theorem c05_trapezoid_samples : forall (T : Type) (NT : Num T) (f : T -> res T) (a b : T) (m : nat) (r : T),
+  trapezoid f a b (N.of_nat m) = Ok r ->
+  exists v0 vs ve,
+    f a = Ok v0 /\ length vs = (m - 1)%nat /\
+    (forall i, (i < length vs)%nat ->
+       f (tnode (ndiv (nsub b a) (nofN (N.of_nat m))) a (S i)) = Ok (nth i vs n0)) /\
+    f b = Ok ve /\
+    r = ndiv (nmul (ndiv (nsub b a) (nofN (N.of_nat m)))
+                   (nadd (fold_left (fun s v => nadd s (nmul ntwo v)) vs v0) ve)) ntwo.
+Proof. exact (@Proofs.QuadFloat.trapezoid_samples). Qed.
+Check c05_trapezoid_samples : forall (T : Type) (NT : Num T) (f : T -> res T) (a b : T) (m : nat) (r : T),
+  trapezoid f a b (N.of_nat m) = Ok r ->
+  exists v0 vs ve,
+    f a = Ok v0 /\ length vs = (m - 1)%nat /\
+    (forall i, (i < length vs)%nat ->
+       f (tnode (ndiv (nsub b a) (nofN (N.of_nat m))) a (S i)) = Ok (nth i vs n0)) /\
+    f b = Ok ve /\
+    r = ndiv (nmul (ndiv (nsub b a) (nofN (N.of_nat m)))
+                   (nadd (fold_left (fun s v => nadd s (nmul ntwo v)) vs v0) ve)) ntwo.
+Print Assumptions c05_trapezoid_samples.
+
+(* the same for the 1/3 rule: panel end nodes y_(j+1) = y_j + 2h ([snode]), midpoints y_(j+1) - h *)
+Theorem c05_simpson13_samples : forall (T : Type) (NT : Num T) (f : T -> res T) (h a : T) (p : nat) (r : T),
+  simpson13 f h a (N.of_nat (2 * p)) = Ok r ->
+  exists v0 ps vm ve,
+    f a = Ok v0 /\ length ps = (p - 1)%nat /\
+    (forall j, (j < length ps)%nat ->
+       f (nsub (snode h a (S j)) h) = Ok (fst (nth j ps (n0, n0))) /\
+       f (snode h a (S j)) = Ok (snd (nth j ps (n0, n0)))) /\
+    f (nsub (snode h a (S (p - 1))) h) = Ok vm /\ f (snode h a (S (p - 1))) = Ok ve /\
+    r = ndiv (nmul h (nadd (fold_left (fun s q => nadd s (nadd (nmul (nofZ 4) (fst q)) (nmul ntwo (snd q)))) ps v0)
+                           (nadd (nmul (nofZ 4) vm) ve))) (nofZ 3).
+Proof. exact (@Proofs.QuadFloat.simpson13_samples). Qed.
+Check c05_simpson13_samples : forall (T : Type) (NT : Num T) (f : T -> res T) (h a : T) (p : nat) (r : T),
+  simpson13 f h a (N.of_nat (2 * p)) = Ok r ->
+  exists v0 ps vm ve,
+    f a = Ok v0 /\ length ps = (p - 1)%nat /\
+    (forall j, (j < length ps)%nat ->
+       f (nsub (snode h a (S j)) h) = Ok (fst (nth j ps (n0, n0))) /\
+       f (snode h a (S j)) = Ok (snd (nth j ps (n0, n0)))) /\
+    f (nsub (snode h a (S (p - 1))) h) = Ok vm /\ f (snode h a (S (p - 1))) = Ok ve /\
+    r = ndiv (nmul h (nadd (fold_left (fun s q => nadd s (nadd (nmul (nofZ 4) (fst q)) (nmul ntwo (snd q)))) ps v0)
+                           (nadd (nmul (nofZ 4) vm) ve))) (nofZ 3).
+Print Assumptions c05_simpson13_samples.
+
+(* binary64 trapezoid, m segments: with v0 = f(a), vs = the values f returned at the computed nodes
+   x_1..x_(m-1), ve = f(b); [trap_terms vs ve] = [2*v_1; ..; 2*v_(m-1); ve] accumulated left to right from v0.
+   Hypotheses: every partial sum finite (then the doublings are finite and exact), h*sum and the division
+   by 2 without overflow/underflow ([okmul]/[okdiv]: finite, exact value zero or >= 2^-1022 in magnitude).
+   m additions + 1 product + 1 division: exponent m + 2. *)
+Theorem c05_trapezoid_float_error : forall (f : PrimFloat.float -> res PrimFloat.float) (a b : PrimFloat.float) (m : nat)
+         (r v0 ve : PrimFloat.float) (vs : list PrimFloat.float),
+  (1 <= m)%nat ->
+  @trapezoid PrimFloat.float FNum f a b (N.of_nat m) = Ok r ->
+  let h := PrimFloat.div (PrimFloat.sub b a) (@nofN PrimFloat.float FNum (N.of_nat m)) in
+  f a = Ok v0 -> length vs = (m - 1)%nat ->
+  (forall i, (i < length vs)%nat -> f (@tnode PrimFloat.float FNum h a (S i)) = Ok (nth i vs PrimFloat.zero)) ->
+  f b = Ok ve ->
+  (forall k, (k <= m)%nat ->
+     is_finite (Prim2B (fold_left PrimFloat.add (firstn k (trap_terms vs ve)) v0)) = true) ->
+  okmul h (fold_left PrimFloat.add (trap_terms vs ve) v0) ->
+  okdiv (PrimFloat.mul h (fold_left PrimFloat.add (trap_terms vs ve) v0)) (@ntwo PrimFloat.float FNum) ->
+  is_finite (Prim2B r) = true /\
+  Rabs (B2R (Prim2B r) -
+        B2R (Prim2B h) * (B2R (Prim2B v0) + 2 * Rsum (map (fun v => B2R (Prim2B v)) vs) + B2R (Prim2B ve)) / 2) <=
+    ((1 + bpow radix2 (-53)) ^ (m + 2) - 1) * Rabs (B2R (Prim2B h)) *
+    (Rabs (B2R (Prim2B v0)) + 2 * Rsum (map (fun v => Rabs (B2R (Prim2B v))) vs) + Rabs (B2R (Prim2B ve))) / 2.
+Proof. exact Proofs.QuadFloat.trapezoid_float_error. Qed.
+Check c05_trapezoid_float_error : forall (f : PrimFloat.float -> res PrimFloat.float) (a b : PrimFloat.float) (m : nat)
+         (r v0 ve : PrimFloat.float) (vs : list PrimFloat.float),
+  (1 <= m)%nat ->
+  @trapezoid PrimFloat.float FNum f a b (N.of_nat m) = Ok r ->
+  let h := PrimFloat.div (PrimFloat.sub b a) (@nofN PrimFloat.float FNum (N.of_nat m)) in
+  f a = Ok v0 -> length vs = (m - 1)%nat ->
+  (forall i, (i < length vs)%nat -> f (@tnode PrimFloat.float FNum h a (S i)) = Ok (nth i vs PrimFloat.zero)) ->
+  f b = Ok ve ->
+  (forall k, (k <= m)%nat ->
+     is_finite (Prim2B (fold_left PrimFloat.add (firstn k (trap_terms vs ve)) v0)) = true) ->
+  okmul h (fold_left PrimFloat.add (trap_terms vs ve) v0) ->
+  okdiv (PrimFloat.mul h (fold_left PrimFloat.add (trap_terms vs ve) v0)) (@ntwo PrimFloat.float FNum) ->
+  is_finite (Prim2B r) = true /\
+  Rabs (B2R (Prim2B r) -
+        B2R (Prim2B h) * (B2R (Prim2B v0) + 2 * Rsum (map (fun v => B2R (Prim2B v)) vs) + B2R (Prim2B ve)) / 2) <=
+    ((1 + bpow radix2 (-53)) ^ (m + 2) - 1) * Rabs (B2R (Prim2B h)) *
+    (Rabs (B2R (Prim2B v0)) + 2 * Rsum (map (fun v => Rabs (B2R (Prim2B v))) vs) + Rabs (B2R (Prim2B ve))) / 2.
+Print Assumptions c05_trapezoid_float_error.
+
+(* binary64 1/3 rule, 2p segments: ps = (value at midpoint, value at end node) of panels 1..p-1, (vm, ve) those
+   of the last panel; [s13_terms ps vm ve] = [fl(4 vm_1 + 2 ve_1); ..; fl(4 vm + ve)] accumulated from v0.
+   p additions + 1 rounding inside each panel term + 1 product + 1 division: exponent p + 3. *)
+Theorem c05_simpson13_float_error : forall (f : PrimFloat.float -> res PrimFloat.float) (h a : PrimFloat.float) (p : nat)
+         (r v0 vm ve : PrimFloat.float) (ps : list (PrimFloat.float * PrimFloat.float)),
+  (1 <= p)%nat ->
+  @simpson13 PrimFloat.float FNum f h a (N.of_nat (2 * p)) = Ok r ->
+  f a = Ok v0 -> length ps = (p - 1)%nat ->
+  (forall j, (j < length ps)%nat ->
+     f (PrimFloat.sub (@snode PrimFloat.float FNum h a (S j)) h) = Ok (fst (nth j ps (PrimFloat.zero, PrimFloat.zero))) /\
+     f (@snode PrimFloat.float FNum h a (S j)) = Ok (snd (nth j ps (PrimFloat.zero, PrimFloat.zero)))) ->
+  f (PrimFloat.sub (@snode PrimFloat.float FNum h a p) h) = Ok vm ->
+  f (@snode PrimFloat.float FNum h a p) = Ok ve ->
+  (forall k, (k <= p)%nat ->
+     is_finite (Prim2B (fold_left PrimFloat.add (firstn k (s13_terms ps vm ve)) v0)) = true) ->
+  okmul h (fold_left PrimFloat.add (s13_terms ps vm ve) v0) ->
+  okdiv (PrimFloat.mul h (fold_left PrimFloat.add (s13_terms ps vm ve) v0)) (@nofZ PrimFloat.float FNum 3) ->
+  is_finite (Prim2B r) = true /\
+  Rabs (B2R (Prim2B r) -
+        B2R (Prim2B h) *
+          (B2R (Prim2B v0)
+           + Rsum (map (fun q => 4 * B2R (Prim2B (fst q)) + 2 * B2R (Prim2B (snd q))) ps)
+           + 4 * B2R (Prim2B vm) + B2R (Prim2B ve)) / 3) <=
+    ((1 + bpow radix2 (-53)) ^ (p + 3) - 1) * Rabs (B2R (Prim2B h)) *
+    (Rabs (B2R (Prim2B v0))
+     + Rsum (map (fun q => 4 * Rabs (B2R (Prim2B (fst q))) + 2 * Rabs (B2R (Prim2B (snd q)))) ps)
+     + 4 * Rabs (B2R (Prim2B vm)) + Rabs (B2R (Prim2B ve))) / 3.
+Proof. exact Proofs.QuadFloat.simpson13_float_error. Qed.
+Check c05_simpson13_float_error : forall (f : PrimFloat.float -> res PrimFloat.float) (h a : PrimFloat.float) (p : nat)
+         (r v0 vm ve : PrimFloat.float) (ps : list (PrimFloat.float * PrimFloat.float)),
+  (1 <= p)%nat ->
+  @simpson13 PrimFloat.float FNum f h a (N.of_nat (2 * p)) = Ok r ->
+  f a = Ok v0 -> length ps = (p - 1)%nat ->
+  (forall j, (j < length ps)%nat ->
+     f (PrimFloat.sub (@snode PrimFloat.float FNum h a (S j)) h) = Ok (fst (nth j ps (PrimFloat.zero, PrimFloat.zero))) /\
+     f (@snode PrimFloat.float FNum h a (S j)) = Ok (snd (nth j ps (PrimFloat.zero, PrimFloat.zero)))) ->
+  f (PrimFloat.sub (@snode PrimFloat.float FNum h a p) h) = Ok vm ->
+  f (@snode PrimFloat.float FNum h a p) = Ok ve ->
+  (forall k, (k <= p)%nat ->
+     is_finite (Prim2B (fold_left PrimFloat.add (firstn k (s13_terms ps vm ve)) v0)) = true) ->
+  okmul h (fold_left PrimFloat.add (s13_terms ps vm ve) v0) ->
+  okdiv (PrimFloat.mul h (fold_left PrimFloat.add (s13_terms ps vm ve) v0)) (@nofZ PrimFloat.float FNum 3) ->
+  is_finite (Prim2B r) = true /\
+  Rabs (B2R (Prim2B r) -
+        B2R (Prim2B h) *
+          (B2R (Prim2B v0)
+           + Rsum (map (fun q => 4 * B2R (Prim2B (fst q)) + 2 * B2R (Prim2B (snd q))) ps)
+           + 4 * B2R (Prim2B vm) + B2R (Prim2B ve)) / 3) <=
+    ((1 + bpow radix2 (-53)) ^ (p + 3) - 1) * Rabs (B2R (Prim2B h)) *
+    (Rabs (B2R (Prim2B v0))
+     + Rsum (map (fun q => 4 * Rabs (B2R (Prim2B (fst q))) + 2 * Rabs (B2R (Prim2B (snd q)))) ps)
+     + 4 * Rabs (B2R (Prim2B vm)) + Rabs (B2R (Prim2B ve))) / 3.
+Print Assumptions c05_simpson13_float_error.
+
+(* definite_integral with an even segment count 2p >= 2: dispatch to the 1/3 rule with h = (b - a)/(2p) as
+   computed, then `0.0 + s` (exact in value) *)
+Theorem c05_definite_integral_even_float_error : forall (f : PrimFloat.float -> res PrimFloat.float) (a b : PrimFloat.float) (p : nat)
+         (r v0 vm ve : PrimFloat.float) (ps : list (PrimFloat.float * PrimFloat.float)),
+  (1 <= p)%nat ->
+  @definite_integral PrimFloat.float FNum f a b (N.of_nat (2 * p)) = Ok r ->
+  let h := PrimFloat.div (PrimFloat.sub b a) (@nofN PrimFloat.float FNum (N.of_nat (2 * p))) in
+  f a = Ok v0 -> length ps = (p - 1)%nat ->
+  (forall j, (j < length ps)%nat ->
+     f (PrimFloat.sub (@snode PrimFloat.float FNum h a (S j)) h) = Ok (fst (nth j ps (PrimFloat.zero, PrimFloat.zero))) /\
+     f (@snode PrimFloat.float FNum h a (S j)) = Ok (snd (nth j ps (PrimFloat.zero, PrimFloat.zero)))) ->
+  f (PrimFloat.sub (@snode PrimFloat.float FNum h a p) h) = Ok vm ->
+  f (@snode PrimFloat.float FNum h a p) = Ok ve ->
+  (forall k, (k <= p)%nat ->
+     is_finite (Prim2B (fold_left PrimFloat.add (firstn k (s13_terms ps vm ve)) v0)) = true) ->
+  okmul h (fold_left PrimFloat.add (s13_terms ps vm ve) v0) ->
+  okdiv (PrimFloat.mul h (fold_left PrimFloat.add (s13_terms ps vm ve) v0)) (@nofZ PrimFloat.float FNum 3) ->
+  is_finite (Prim2B r) = true /\
+  Rabs (B2R (Prim2B r) -
+        B2R (Prim2B h) *
+          (B2R (Prim2B v0)
+           + Rsum (map (fun q => 4 * B2R (Prim2B (fst q)) + 2 * B2R (Prim2B (snd q))) ps)
+           + 4 * B2R (Prim2B vm) + B2R (Prim2B ve)) / 3) <=
+    ((1 + bpow radix2 (-53)) ^ (p + 3) - 1) * Rabs (B2R (Prim2B h)) *
+    (Rabs (B2R (Prim2B v0))
+     + Rsum (map (fun q => 4 * Rabs (B2R (Prim2B (fst q))) + 2 * Rabs (B2R (Prim2B (snd q)))) ps)
+     + 4 * Rabs (B2R (Prim2B vm)) + Rabs (B2R (Prim2B ve))) / 3.
+Proof. exact Proofs.QuadFloat.definite_integral_even_float_error. Qed.
+Check c05_definite_integral_even_float_error : forall (f : PrimFloat.float -> res PrimFloat.float) (a b : PrimFloat.float) (p : nat)
+         (r v0 vm ve : PrimFloat.float) (ps : list (PrimFloat.float * PrimFloat.float)),
+  (1 <= p)%nat ->
+  @definite_integral PrimFloat.float FNum f a b (N.of_nat (2 * p)) = Ok r ->
+  let h := PrimFloat.div (PrimFloat.sub b a) (@nofN PrimFloat.float FNum (N.of_nat (2 * p))) in
+  f a = Ok v0 -> length ps = (p - 1)%nat ->
+  (forall j, (j < length ps)%nat ->
+     f (PrimFloat.sub (@snode PrimFloat.float FNum h a (S j)) h) = Ok (fst (nth j ps (PrimFloat.zero, PrimFloat.zero))) /\
+     f (@snode PrimFloat.float FNum h a (S j)) = Ok (snd (nth j ps (PrimFloat.zero, PrimFloat.zero)))) ->
+  f (PrimFloat.sub (@snode PrimFloat.float FNum h a p) h) = Ok vm ->
+  f (@snode PrimFloat.float FNum h a p) = Ok ve ->
+  (forall k, (k <= p)%nat ->
+     is_finite (Prim2B (fold_left PrimFloat.add (firstn k (s13_terms ps vm ve)) v0)) = true) ->
+  okmul h (fold_left PrimFloat.add (s13_terms ps vm ve) v0) ->
+  okdiv (PrimFloat.mul h (fold_left PrimFloat.add (s13_terms ps vm ve) v0)) (@nofZ PrimFloat.float FNum 3) ->
+  is_finite (Prim2B r) = true /\
+  Rabs (B2R (Prim2B r) -
+        B2R (Prim2B h) *
+          (B2R (Prim2B v0)
+           + Rsum (map (fun q => 4 * B2R (Prim2B (fst q)) + 2 * B2R (Prim2B (snd q))) ps)
+           + 4 * B2R (Prim2B vm) + B2R (Prim2B ve)) / 3) <=
+    ((1 + bpow radix2 (-53)) ^ (p + 3) - 1) * Rabs (B2R (Prim2B h)) *
+    (Rabs (B2R (Prim2B v0))
+     + Rsum (map (fun q => 4 * Rabs (B2R (Prim2B (fst q))) + 2 * Rabs (B2R (Prim2B (snd q)))) ps)
+     + 4 * Rabs (B2R (Prim2B vm)) + Rabs (B2R (Prim2B ve))) / 3.
+Print Assumptions c05_definite_integral_even_float_error.
+
+(* the hypotheses of the three float theorems are satisfiable: f(x) = x*x (one binary64 product) on [0,1]
+   with 4 segments; every hypothesis is discharged by computation (Proofs/QuadFloat.v) *)
+Example c05_trapezoid_float_nonvacuous :
+  exists r, @trapezoid PrimFloat.float FNum ex_sq 0%float 1%float 4 = Ok r /\
+  is_finite (Prim2B r) = true /\
+  Rabs (B2R (Prim2B r) -
+        B2R (Prim2B 0x1p-2%float) *
+          (B2R (Prim2B 0%float) + 2 * Rsum (map (fun v => B2R (Prim2B v)) ex_trap_vs) + B2R (Prim2B 1%float)) / 2) <=
+    ((1 + bpow radix2 (-53)) ^ 6 - 1) * Rabs (B2R (Prim2B 0x1p-2%float)) *
+    (Rabs (B2R (Prim2B 0%float)) + 2 * Rsum (map (fun v => Rabs (B2R (Prim2B v))) ex_trap_vs)
+     + Rabs (B2R (Prim2B 1%float))) / 2.
+Proof. exact Proofs.QuadFloat.ex_trapezoid_float_error. Qed.
+
+Example c05_simpson_float_nonvacuous :
+  exists r, @definite_integral PrimFloat.float FNum ex_sq 0%float 1%float 4 = Ok r /\
+  is_finite (Prim2B r) = true /\
+  Rabs (B2R (Prim2B r) -
+        B2R (Prim2B 0x1p-2%float) *
+          (B2R (Prim2B 0%float)
+           + Rsum (map (fun q => 4 * B2R (Prim2B (fst q)) + 2 * B2R (Prim2B (snd q))) ex_s13_ps)
+           + 4 * B2R (Prim2B 0x1.2p-1%float) + B2R (Prim2B 1%float)) / 3) <=
+    ((1 + bpow radix2 (-53)) ^ 5 - 1) * Rabs (B2R (Prim2B 0x1p-2%float)) *
+    (Rabs (B2R (Prim2B 0%float))
+     + Rsum (map (fun q => 4 * Rabs (B2R (Prim2B (fst q))) + 2 * Rabs (B2R (Prim2B (snd q)))) ex_s13_ps)
+     + 4 * Rabs (B2R (Prim2B 0x1.2p-1%float)) + Rabs (B2R (Prim2B 1%float))) / 3.
+Proof. exact Proofs.QuadFloat.ex_simpson_float_error. Qed.
+
+(* binary64 3/8 panel (spliced in for odd segment counts) at the points the caller passes: the products 3*f_1,
+   3*f_2, 3*h, (3h)*sum without overflow/underflow ([okmul]), the three partial sums finite, the division by 8
+   [okdiv].  7 roundings on the longest path: exponent 7.  The assembly of the odd dispatch (this panel + the
+   1/3 rule on the remaining segments + one addition) is not pinned. *)
+Theorem c05_simpson38_float_error : forall (f : PrimFloat.float -> res PrimFloat.float) (h p0 p1 p2 p3 r f0 f1 f2 f3 : PrimFloat.float),
+  @simpson38 PrimFloat.float FNum f h p0 p1 p2 p3 = Ok r ->
+  f p0 = Ok f0 -> f p1 = Ok f1 -> f p2 = Ok f2 -> f p3 = Ok f3 ->
+  let three := @nofZ PrimFloat.float FNum 3 in
+  let t1 := PrimFloat.mul three f1 in
+  let t2 := PrimFloat.mul three f2 in
+  let s := PrimFloat.add (PrimFloat.add (PrimFloat.add f0 t1) t2) f3 in
+  okmul three f1 -> okmul three f2 ->
+  is_finite (Prim2B (PrimFloat.add f0 t1)) = true ->
+  is_finite (Prim2B (PrimFloat.add (PrimFloat.add f0 t1) t2)) = true ->
+  is_finite (Prim2B s) = true ->
+  okmul three h -> okmul (PrimFloat.mul three h) s ->
+  okdiv (PrimFloat.mul (PrimFloat.mul three h) s) (@nofZ PrimFloat.float FNum 8) ->
+  is_finite (Prim2B r) = true /\
+  Rabs (B2R (Prim2B r) -
+        3 * B2R (Prim2B h) *
+          (B2R (Prim2B f0) + 3 * B2R (Prim2B f1) + 3 * B2R (Prim2B f2) + B2R (Prim2B f3)) / 8) <=
+    ((1 + bpow radix2 (-53)) ^ 7 - 1) * (3 * Rabs (B2R (Prim2B h))) *
+    (Rabs (B2R (Prim2B f0)) + 3 * Rabs (B2R (Prim2B f1)) + 3 * Rabs (B2R (Prim2B f2))
+     + Rabs (B2R (Prim2B f3))) / 8.
+Proof. exact Proofs.QuadFloat.simpson38_float_error. Qed.
+Check c05_simpson38_float_error : forall (f : PrimFloat.float -> res PrimFloat.float) (h p0 p1 p2 p3 r f0 f1 f2 f3 : PrimFloat.float),
+  @simpson38 PrimFloat.float FNum f h p0 p1 p2 p3 = Ok r ->
+  f p0 = Ok f0 -> f p1 = Ok f1 -> f p2 = Ok f2 -> f p3 = Ok f3 ->
+  let three := @nofZ PrimFloat.float FNum 3 in
+  let t1 := PrimFloat.mul three f1 in
+  let t2 := PrimFloat.mul three f2 in
+  let s := PrimFloat.add (PrimFloat.add (PrimFloat.add f0 t1) t2) f3 in
+  okmul three f1 -> okmul three f2 ->
+  is_finite (Prim2B (PrimFloat.add f0 t1)) = true ->
+  is_finite (Prim2B (PrimFloat.add (PrimFloat.add f0 t1) t2)) = true ->
+  is_finite (Prim2B s) = true ->
+  okmul three h -> okmul (PrimFloat.mul three h) s ->
+  okdiv (PrimFloat.mul (PrimFloat.mul three h) s) (@nofZ PrimFloat.float FNum 8) ->
+  is_finite (Prim2B r) = true /\
+  Rabs (B2R (Prim2B r) -
+        3 * B2R (Prim2B h) *
+          (B2R (Prim2B f0) + 3 * B2R (Prim2B f1) + 3 * B2R (Prim2B f2) + B2R (Prim2B f3)) / 8) <=
+    ((1 + bpow radix2 (-53)) ^ 7 - 1) * (3 * Rabs (B2R (Prim2B h))) *
+    (Rabs (B2R (Prim2B f0)) + 3 * Rabs (B2R (Prim2B f1)) + 3 * Rabs (B2R (Prim2B f2))
+     + Rabs (B2R (Prim2B f3))) / 8.
+Print Assumptions c05_simpson38_float_error.
+
+Example c05_simpson38_float_nonvacuous :
+  exists r, @simpson38 PrimFloat.float FNum ex_sq 0x1p-2%float 0%float 0x1p-2%float 0x1p-1%float 0x1.8p-1%float = Ok r /\
+  is_finite (Prim2B r) = true /\
+  Rabs (B2R (Prim2B r) -
+        3 * B2R (Prim2B 0x1p-2%float) *
+          (B2R (Prim2B 0%float) + 3 * B2R (Prim2B 0x1p-4%float) + 3 * B2R (Prim2B 0x1p-2%float)
+           + B2R (Prim2B 0x1.2p-1%float)) / 8) <=
+    ((1 + bpow radix2 (-53)) ^ 7 - 1) * (3 * Rabs (B2R (Prim2B 0x1p-2%float))) *
+    (Rabs (B2R (Prim2B 0%float)) + 3 * Rabs (B2R (Prim2B 0x1p-4%float)) + 3 * Rabs (B2R (Prim2B 0x1p-2%float))
+     + Rabs (B2R (Prim2B 0x1.2p-1%float))) / 8.
+Proof. exact Proofs.QuadFloat.ex_simpson38_float_error. Qed.
